@@ -27,10 +27,15 @@ const TagShift = 20
 func ID(producer, seq int) int { return producer<<TagShift | seq }
 
 // Tri builds the triangle carrying id.  Coordinates are small integers (+0.25), exact in
-// float32, inside the range where go3mf's vertex de-duplication is injective.
+// float32, inside the range where go3mf's vertex de-duplication is injective.  Every seventh
+// item (sequence number = 3 mod 7) is a DEGENERATE triangle (first two vertices equal): a sink
+// must deliver those too, exactly once and in place.
 func Tri(id int) *sdf.Triangle3 {
 	p, s := id>>TagShift, id&(1<<TagShift-1)
 	x, y, z := float64(s%1000), float64(s/1000), float64(p)
+	if s%7 == 3 {
+		return &sdf.Triangle3{{X: x, Y: y, Z: z}, {X: x, Y: y, Z: z}, {X: x, Y: y + 0.25, Z: z}}
+	}
 	return &sdf.Triangle3{{X: x, Y: y, Z: z}, {X: x + 0.25, Y: y, Z: z}, {X: x, Y: y + 0.25, Z: z}}
 }
 
@@ -44,7 +49,11 @@ func idOf(x, y, z float64) (int, bool) {
 // TriID decodes a triangle; ok is false when it is not one of ours (corrupted).
 func TriID(a, b, c v3.Vec) (int, bool) {
 	id, ok := idOf(a.X, a.Y, a.Z)
-	if !ok || b.X != a.X+0.25 || b.Y != a.Y || b.Z != a.Z || c.X != a.X || c.Y != a.Y+0.25 || c.Z != a.Z {
+	bx := a.X + 0.25
+	if ok && (id&(1<<TagShift-1))%7 == 3 {
+		bx = a.X // the degenerate form
+	}
+	if !ok || b.X != bx || b.Y != a.Y || b.Z != a.Z || c.X != a.X || c.Y != a.Y+0.25 || c.Z != a.Z {
 		return 0, false
 	}
 	return id, true
